@@ -279,6 +279,11 @@ class BaseEMSurvey(ObjectBase, ABC):  # pylint: disable=too-many-public-methods
         clear_cache: bool = False,
         mask: np.ndarray | None = None,
     ):
+        if mask is not None and self.complement.n_vertices != self.n_vertices:
+            # a partner with its own count of stations (the single base station
+            # of a tipper survey) has no entry per receiver: it is copied whole
+            mask = None
+
         new_complement = self.complement._super_copy(  # pylint: disable=protected-access
             parent=parent,
             copy_children=copy_children,
